@@ -324,7 +324,10 @@ def check(ctx):
     POS = max(by_var, key=lambda k_: len(by_var[k_])) if by_var else None
     if POS is None or len(by_var[POS]) < 2:
         raise AnalysisError(f"xonsh/parsers/tokenize.py:_tokenize: column scans (`while <pos> < <max>`) not found ({ {k_: len(v_) for k_, v_ in by_var.items()} })")
-    STACKS = {n_ for n_, ds_ in zdefs.items() if any(d_.kind == "param" for d_ in ds_) is False and any(isinstance(d_.value, ast.List) or (isinstance(d_.value, ast.IfExp) and any(isinstance(x, ast.List) for x in (d_.value.body, d_.value.orelse))) for d_ in ds_ if d_.value is not None) and "fstring" in n_} | {"fstring_stack"}
+    # the f-string stack: the local whose top frame's mode flag is tested (`<stack>[-1]["in_expr"]`)
+    STACKS = {x.value.value.id for x in ast.walk(tzf) if isinstance(x, ast.Subscript) and const_value(x.slice) in ("in_expr", "in_format_spec") and isinstance(x.value, ast.Subscript) and unparse(x.value.slice) == "-1" and isinstance(x.value.value, ast.Name)}
+    if not STACKS:
+        raise AnalysisError("xonsh/parsers/tokenize.py:_tokenize: f-string stack not identified")
     FRAMES = names_defined_by(tzf, lambda v: isinstance(v, ast.Subscript) and unparse(v.value) in STACKS and unparse(v.slice) == "-1", zdefs)
     MODE_KEYS = {"in_expr", "in_format_spec"}
 
